@@ -12,6 +12,7 @@ let split_case line =
 let dispatch inp obs =
   match inp with
   | k :: _ when String.length k >= 3 && String.sub k 0 3 = "C17" -> C17.run inp obs
+  | k :: _ when String.length k >= 3 && String.sub k 0 3 = "C15" -> C15.run inp obs
   | _ -> (Some "unknown case kind", None)
 
 let () =
